@@ -202,8 +202,12 @@ def plans(tier, seed):
         P.append((('fluid', (20, 'never'), N, p, seed), red, 2))
         P.append((('components', (3, 'mid'), N, p, seed), red, 2))
         P.append((('tensor', (2, 'mid'), N, p, seed), small, 3))
+        P.append((('tensor_other', (20, 'never'), N, p, seed),
+                  red + ['uup4', 'udown4', 'eweyl_u_down4', 'bweyl_u_down4',
+                         'h:null_vector_base'], 2))
     else:
-        for incfg in ('tensor', 'components', 'fluid', 'rho', 'partial'):
+        for incfg in ('tensor', 'components', 'fluid', 'rho', 'partial',
+                      'tensor_other'):
             for cconf in ((20, 'never'), (3, 'mid'), (1, 'always')):
                 P.append(((incfg, cconf, N, p, seed), full, 2))
         P.append((('tensor', (20, 'never'), N, p, seed), red, 3))
